@@ -88,6 +88,8 @@ class Universe:
         return len(self.nodes)
 
     def V(self, i):
+        if i == -1:
+            return 5        # IRGraph!NotAValue: an argument that is not a Value at all
         return None if i == 0 else self.values[i - 1]
 
     def N(self, i):
